@@ -605,7 +605,7 @@ def run(chk, drv, rng, tier):
 
 
 def _run(chk, drv, rng, tier, check_sl_, check_stepwise_, check_refit_):
-    reps = 3 if tier == 'quick' else 40
+    reps = 3 if tier == 'quick' else 120
     for rep in range(reps):
         for loss in ('l2', 'nloglik'):
             for discrete in (False, True):
